@@ -44,7 +44,7 @@ KINDS = [("nmi", 0, []), ("im1", 1, []), ("im2", 1, [0x10]), ("im0_rst38", 1, [0
 
 def gen(rng, tier):
     lines, meta = [], {}
-    n = 14 if tier == "quick" else 300
+    n = 14 if tier == "quick" else 2000
     k = 0
     for _ in range(n):
         mem_ei = program(rng)
